@@ -346,6 +346,9 @@ def run(ctx):
     frames(ctx)
     bookkeeping(ctx)
     swap_lint(ctx)
+    from .C05 import krige_state
+
+    krige_state(ctx, rule="R12.5")
 
     return (
         "Decides the structural clauses of C12: (R12.1) isometrize/anisometrize and the matrix builders are inverse pairs by construction (reversed order of paired inverse factors, "
